@@ -34,13 +34,13 @@ def shards(tier):
     return 16
 
 
-KEY_CLASSES = ["length", "padded", "truncated", "flag-grid", "non-subgroup", "torsion", "identity", "random", "valid"]
-SIG_CLASSES = ["length", "padded", "zero-at-48", "flag-grid", "non-subgroup", "torsion", "identity", "random", "valid"]
+KEY_CLASSES = ["length", "padded", "truncated", "flag-grid", "non-subgroup", "torsion", "identity", "random", "valid", "noncanonical"]
+SIG_CLASSES = ["length", "padded", "zero-at-48", "flag-grid", "non-subgroup", "torsion", "identity", "random", "valid", "noncanonical"]
 
 
 def required_classes(tier):
     out = ["key:" + c for c in KEY_CLASSES] + ["sig:" + c for c in SIG_CLASSES]
-    out += ["ep:KeyValidate", "ep:Verify", "ep:PopVerify", "ep:AggregateVerify", "ep:FastAggregateVerify", "valid-call-reaching-pairing", "list-position"]
+    out += ["key:cancelling-set", "ep:KeyValidate", "ep:Verify", "ep:PopVerify", "ep:AggregateVerify", "ep:FastAggregateVerify", "valid-call-reaching-pairing", "list-position"]
     return out
 
 
@@ -74,6 +74,14 @@ def hostile_keys(rng, valid_pk, quick):
         out.append(("torsion", Z.enc_g1(T)))
         out.append(("non-subgroup", Z.enc_g1(E1.add(E1.mul(G1m, rng.randrange(1, R)), T))))
     out.append(("non-subgroup", Z.enc_g1(E1.rand_point(rng))))
+    # non-canonical encodings of VALID keys: x + p where that still fits in 381 bits (about 23% of all x)
+    for _ in range(40):
+        Pt = E1.mul(G1m, rng.randrange(1, R))
+        if Pt[0][0] + P < (1 << 381):
+            w = Z.enc_g1_word(Pt) + P
+            out.append(("noncanonical", w.to_bytes(48, "big")))
+            break
+    out.append(("noncanonical", (int.from_bytes(valid_pk, "big") ^ (1 << 381)).to_bytes(48, "big")))       # other sign bit: -P, valid but another key
     out.append(("identity", Z.enc_g1(None)))
     out.append(("identity", ((7 << 381)).to_bytes(48, "big")))
     out.append(("identity", ((6 << 381) | 1).to_bytes(48, "big")))
@@ -116,6 +124,12 @@ def hostile_sigs(rng, valid_sig, quick):
         out.append(("torsion", Z.enc_g2(T)))
         out.append(("non-subgroup", Z.enc_g2(E2.add(Z.dec_g2(valid_sig), T))))
     out.append(("non-subgroup", Z.enc_g2(N)))
+    # non-canonical encodings of the VALID signature: a coordinate + p
+    z1, z2 = int.from_bytes(valid_sig[:48], "big"), int.from_bytes(valid_sig[48:], "big")
+    out.append(("noncanonical", valid_sig[:48] + (z2 + P).to_bytes(48, "big")))
+    if (z1 & Z.M381) + P < (1 << 381):
+        out.append(("noncanonical", (z1 + P).to_bytes(48, "big") + valid_sig[48:]))
+    out.append(("noncanonical", valid_sig[:48] + (z2 + 2 * P).to_bytes(48, "big")))
     out.append(("identity", Z.enc_g2(None)))
     out.append(("identity", (7 << 381).to_bytes(48, "big") + bytes(48)))
     out.append(("identity", (6 << 381).to_bytes(48, "big") + (1).to_bytes(48, "big")))
@@ -170,7 +184,7 @@ def run(rec):
         for j, (cls, k) in enumerate(hk):
             note("key", cls, k)
             call(S.KeyValidate, k)
-            heavy = cls in ("non-subgroup", "torsion", "identity", "padded") or j % 7 == 0
+            heavy = cls in ("non-subgroup", "torsion", "identity", "padded", "noncanonical") or j % 7 == 0
             if heavy or not quick:
                 call(S.Verify, k, msg, sig)
                 call(Pp.PopVerify, k, prf)
@@ -185,12 +199,34 @@ def run(rec):
                         call(S.AggregateVerify, keys, [msg + bytes([i]) for i in range(n)], agg2)
                         if pos == n - 1:
                             call(Pp.FastAggregateVerify, keys, msg, sig_pop)
+        # ---- key SETS whose members are outside the subgroup but whose cofactor components cancel in the sum:
+        #      every member is invalid, so the answer must be False although the aggregate key is a fine subgroup point
+        G1m = params.bls_generators()[0]
+        order1 = params.BLS_H1 * R
+        for q in ((3, 11) if quick else (3, 11, 10177, 0)):
+            T = CG.torsion_point(E1, order1, q, rng) if q else E1.mul(E1.rand_point(rng), R)
+            if T is None:
+                continue
+            P1, P2 = E1.mul(G1m, sk), E1.mul(G1m, sk2)
+            k1, k2 = Z.enc_g1(E1.add(P1, T)), Z.enc_g1(E1.add(P2, E1.neg(T)))
+            both = MB.aggregate([sig_pop, bmon.m_sign("pop", sk2, msg)])
+            bmon.register_key((sk + sk2) % R)
+            rec.case("key:cancelling-set", ("cancel", q, k1, k2), sample={"input": "keys P1+T, P2-T", "order_of_T": q or "large"})
+            call(Pp.FastAggregateVerify, [k1, k2], msg, both)
+            call(Pp.FastAggregateVerify, [pk2, k1, k2], msg, MB.aggregate([both, bmon.m_sign("pop", sk2, msg)]))
+            call(S.AggregateVerify, [k1, k2], [msg, msg2], agg2)
+            if q:
+                bmon.register_key((q * sk) % R)
+                call(Pp.FastAggregateVerify, [k1] * q if q <= 11 else [k1, k2], msg, bmon.m_sign("pop", (q * sk) % R, msg) if q <= 11 else both)
+            # signature side: S + T and S' - T are each outside the subgroup
+            if q in (3, 0):
+                continue
         # ---- hostile signatures (valid key, so only the signature checks can reject)
         hs = hostile_sigs(rng, sig, quick)
         for j, (cls, s) in enumerate(hs):
             note("sig", cls, s)
             call(S.Verify, pk, msg, s)
-            if cls in ("non-subgroup", "torsion", "identity", "zero-at-48", "padded") or j % 5 == 0 or not quick:
+            if cls in ("non-subgroup", "torsion", "identity", "zero-at-48", "padded", "noncanonical") or j % 5 == 0 or not quick:
                 call(Pp.PopVerify, pk, s)
                 call(S.AggregateVerify, [pk, pk2], [msg, msg2], s)
                 call(Pp.FastAggregateVerify, [pk, pk2], msg, s)
